@@ -3,6 +3,8 @@ package main
 import (
 	"encoding/json"
 	"fmt"
+	"math"
+	"math/big"
 	"math/rand"
 	"strings"
 	"sync"
@@ -161,6 +163,14 @@ func c11(args []string) error {
 					lp++
 					check(o, fmt.Sprintf("parse/opts%d", pi), true)
 				}
+				// the same document with a loose "bbox" member on every object: Rect() is computed from the positions
+				if lr%3 == 0 {
+					loose := strings.ReplaceAll(text, `{"type":`, `{"bbox":[-170,-80,170,80],"type":`)
+					if o, err := geojson.Parse(loose, &parseOptSets[int(lr)%len(parseOptSets)]); err == nil {
+						lp++
+						check(o, "parse/loose-bbox-members", true)
+					}
+				}
 			}
 			mu.Lock()
 			evals += le
@@ -209,7 +219,62 @@ func c11(args []string) error {
 		}
 		recorded += 4
 	}
-	printJSON(obj{"rows": rows, "evaluations": evals, "mismatches": mism, "recorded": recorded, "events": ev.N, "parsed_ok": parsed})
+	// decimal coordinates: L1 says Center = (min + max) / 2 over the reals and Rect = (min, max); for float64 values that
+	// are not small integers the answer must be the float64 nearest to the exact midpoint of the two float64 extremes
+	// (exact rational arithmetic, math/big); the lattice families cannot tell formulas apart that differ only in rounding
+	fl, err := newEvents(outdir + "/c11.float.ndjson")
+	if err != nil {
+		return err
+	}
+	defer fl.Close()
+	floatCases, floatMism := 0, 0
+	mid := func(a, b float64) float64 {
+		r := new(big.Rat).Add(new(big.Rat).SetFloat64(a), new(big.Rat).SetFloat64(b))
+		f, _ := r.Quo(r, big.NewRat(2, 1)).Float64()
+		return f
+	}
+	for k := 0; k < 6000; k++ {
+		d := []float64{10, 100, 1e5, 1e7, 3, 1e15}[k%6]
+		val := func(lim float64) float64 { return math.Round((rng.Float64()*2-1)*lim*d) / d }
+		x1, x2, y1, y2 := val(180), val(180), val(90), val(90)
+		if k%7 == 0 {
+			x2 = -x1 + 1/d // nearly symmetric about zero: the sum cancels
+		}
+		pts := []geometry.Point{{X: x1, Y: y1}, {X: x2, Y: y2}}
+		minx, maxx, miny, maxy := math.Min(x1, x2), math.Max(x1, x2), math.Min(y1, y2), math.Max(y1, y2)
+		var o geojson.Object
+		kind := []string{"Rect", "LineString", "MultiPoint", "Polygon", "Feature(LineString)", "Parse(LineString)"}[k%6]
+		switch k % 6 {
+		case 0:
+			o = geojson.NewRect(geometry.Rect{Min: geometry.Point{X: minx, Y: miny}, Max: geometry.Point{X: maxx, Y: maxy}})
+		case 1:
+			o = geojson.NewLineString(geometry.NewLine(pts, nil))
+		case 2:
+			o = geojson.NewMultiPoint(pts)
+		case 3:
+			o = geojson.NewPolygon(geometry.NewPoly([]geometry.Point{pts[0], {X: x2, Y: y1}, pts[1], pts[0]}, nil, nil))
+		case 4:
+			o = geojson.NewFeature(geojson.NewLineString(geometry.NewLine(pts, nil)), "")
+		default:
+			text := fmt.Sprintf(`{"type":"LineString","coordinates":[[%s,%s],[%s,%s]]}`, fnum(x1), fnum(y1), fnum(x2), fnum(y2))
+			p, perr := geojson.Parse(text, nil)
+			if perr != nil {
+				continue
+			}
+			o = p
+		}
+		floatCases++
+		r, c := o.Rect(), o.Center()
+		wantC := geometry.Point{X: mid(minx, maxx), Y: mid(miny, maxy)}
+		if r.Min.X != minx || r.Min.Y != miny || r.Max.X != maxx || r.Max.Y != maxy || c != wantC {
+			floatMism++
+			if floatMism <= 50 {
+				fl.Emit(obj{"kind": kind, "points": [][]float64{{x1, y1}, {x2, y2}}, "rect": []float64{r.Min.X, r.Min.Y, r.Max.X, r.Max.Y}, "center": []float64{c.X, c.Y},
+					"exact_center": []float64{wantC.X, wantC.Y}})
+			}
+		}
+	}
+	printJSON(obj{"rows": rows, "evaluations": evals, "mismatches": mism, "recorded": recorded, "events": ev.N, "parsed_ok": parsed, "float_cases": floatCases, "float_mismatches": floatMism})
 	return nil
 }
 
